@@ -15,7 +15,9 @@
 EXTENDS Naturals, Integers, Sequences, FiniteSets, TLC, SequencesExt
 
 CONSTANTS
-  Addrs, Keys,     \* a requester is an <<address, key>> pair (source address of the datagram, key that signed it)
+  Addrs, Keys,     \* a requester is an <<address, key>> pair (source address of the datagram, key that signed it);
+                   \* the driver maps "A1p" / "A1m" to another port of A1's host / an IP differing from A1 only in bits
+                   \* that calc_node_id masks away: same node id, different requester
   Signers,         \* value signers
   OwnSigner,       \* the signer whose key hash equals the storage key (put() keeps that entry last); "" = none
   MaxVer, Datas,   \* versions 0..MaxVer and payload variants of signed values
